@@ -20,7 +20,8 @@ shutil.copytree(V + "/harness", hz, ignore=shutil.ignore_patterns("target"))
 t = open(hz + "/Cargo.toml").read().replace('path = "/repo"', 'path = "%s"' % wt)
 open(hz + "/Cargo.toml", "w").write(t)
 env = dict(os.environ, CARGO_NET_OFFLINE="true", VERIF_KNOWN=V + "/known_findings.txt")
-drv = V + "/lean/.lake/build/bin/z80drv"
+drv = root + "/z80drv"   # a private copy: rebuilding the driver while this runs must not disturb it
+shutil.copy(V + "/lean/.lake/build/bin/z80drv", drv)
 try:
     for n in names:
         d = os.environ.get("MX_DIR", V + "/seeded") + "/" + n
